@@ -564,18 +564,18 @@ PROPS = {
     'C14': dict(level='proof', units=['U14v', 'U14b', 'U30k', 'U18k', 'U39n'],
                 level_text='Verus proof that the envelope check accepts a file iff it is intact (for all byte strings: truncated, extended, flipped version / length / payload under A-sha), and that store writes exactly the envelope; complete Kani proofs that the codec-op and element-type tables of the partition file (de)serialiser agree and that the catalogue cursor reads back as written',
                 level_note='the "decodes to exactly the logical content" half of C14 is decided for the envelope, the partition file\'s codec description and the catalogue cursor only; data sections, column metadata and the Cap\'n Proto transport itself (A-capnp) are not covered; the WAL payload is covered only by a bounded native enumeration (U39n)',
-                technique='contract-based deductive verification (Verus; Kani complete for the byte-conversion assumption) of extracted functions',
+                technique='contract-based deductive verification (Verus; Kani complete for the byte-conversion assumption) of extracted functions; the WAL payload codec of the unmodified sub-crate by a bounded native enumeration (U39n, labelled bounded)',
                 assumptions=[], not_covered=['capnp encode/decode of WAL segments, data sections and the catalogue partitions', 'FileBlobWriter']),
     'C12': dict(level='other', units=['U13k', 'U21k', 'U21n', 'U19', 'U27k'],
                 level_text='complete Kani proofs of the LIMIT/OFFSET row-window arithmetic (never more rows than LIMIT, no panic for any limit/offset/length); bounded Kani check that LIMIT/OFFSET literals give an error value instead of a panic; Verus / Kani: the NULL column standing in for an unknown column has exactly as many rows as the filter keeps (BatchResult::validate would otherwise panic a worker)',
                 level_note='narrow: sqlparser, convert_to_native_expr, result assembly (BatchResult::validate) and channel delivery are not covered',
-                technique='contract-based deductive verification (Kani complete + bounded harnesses) of extracted slices',
+                technique='contract-based deductive verification (Kani complete + bounded harnesses) of extracted slices; numeric literals by a bounded native enumeration over the real tokenizer (U21n, labelled bounded)',
                 explanation='U13k: loop-free harnesses over all (limit, offset, len) - complete. U21k: LIMIT / OFFSET literals of at most 4 characters over 0-9 . e - (bounded) and the statement list of parse_query for 0, 1, 2 statements (complete). U19 / U27k: the NULL column that stands in for an unknown column has as many rows as the filter keeps (Verus / complete Kani). Everything else about query strings is outside the reach of contracts on this code base.',
                 assumptions=[], not_covered=['sqlparser', 'convert_to_native_expr', 'BatchResult::validate', 'unknown tables / columns handling']),
     'C07': dict(level='proof', units=['U02', 'U03', 'U04k', 'U04v', 'U04d', 'U22n', 'U43n'],
                 level_text='Verus proofs of the column rebuild kernels used by compaction: ColumnBuffer append with null maps (incl. the incoming-null-map path that only compaction takes), string packing round trip, integer encode / delta / decode kernels; complete Kani proof of the width/offset choice',
                 level_note='plan_compaction, Table::compact swap, eviction (LRU), and the free stack-machine column::decode over dyn Data are not covered; that a column evicted or compacted is reloaded from the file it was written to is covered only by the bounded native enumeration U22n; see known findings',
-                technique='contract-based deductive verification (Verus + Kani complete) of extracted functions and slices',
+                technique='contract-based deductive verification (Verus + Kani complete) of extracted functions and slices; column -> file routing and the whole fn column::decode by bounded native enumerations of the extracted functions (U22n, U43n; labelled bounded, not counted as discharged)',
                 assumptions=[], not_covered=['column::decode (dyn Data stack machine)', 'plan_compaction / Table::compact', 'LRU eviction and reload']),
     'C15': dict(level='other', units=['U24k', 'U22n'],
                 level_text='bounded only: Kani harnesses over 2-character names for the table-name cleaning steps and the decision when a directory name must carry the digest of the original name; a native bounded enumeration of the real column -> file routing functions (writer subpartition, both lookup constructions, the three reader lookups) over column-name sets from a stated pool; nothing here is a proof',
@@ -586,12 +586,12 @@ PROPS = {
     'C13': dict(level='proof', units=['U02', 'U27k', 'U17k', 'U42n'],
                 level_text='Verus proofs: a column missing from a batch is padded with NULLs for that batch (extend_to_largest body), a column first seen late reads NULL for all earlier rows (ColumnBuffer::null + push_*), per-column append of every input representation; complete Kani proof that a column missing from a partition is given exactly the rows the WHERE clause keeps, for every filter kind; bounded Kani harnesses (fixed row shapes, labelled bounded) that the client-side event buffer leaves NULL exactly the rows that received no value',
                 level_note='the catalogue glue (catalogue rows added to a batch, lazy column_names initialisation, name registration) is covered only by a bounded native enumeration of histories over the extracted real functions (U42n, labelled bounded); SELECT * expansion and compaction itself are not covered',
-                technique='contract-based deductive verification (Verus) of extracted functions and statement slices',
+                technique='contract-based deductive verification (Verus, Kani complete) of extracted functions and statement slices; catalogue glue by a bounded native enumeration of histories over the extracted functions (U42n) and the client-side buffer by bounded Kani harnesses (both labelled bounded, not counted as discharged)',
                 assumptions=[], not_covered=['catalogue beyond the bounded histories of U42n (one user table, <= 3 steps)', 'the compaction code that uses the name set', 'SELECT * expansion']),
     'C08': dict(level='proof', units=['U18k', 'U02', 'U24k', 'U39n'],
                 level_text='complete Kani proofs of the WAL cursor primitives, of the replay-or-delete classification at recovery and of the cursor field written to / read from the catalogue; Verus proof that compaction appends every row of every input partition once, in order (compact_append slice); bounded check that two table names share a directory only if identical (narrow: primitives, not the protocol)',
                 level_note='the check catches a broken cursor primitive or classification, not a broken ordering of persist / advance / delete across threads; history composition is not covered',
-                technique='contract-based deductive verification (Kani complete harnesses) of extracted functions and statement slices',
+                technique='contract-based deductive verification (Kani complete harnesses, Verus) of extracted functions and statement slices; the WAL payload codec of the unmodified sub-crate by a bounded native enumeration (U39n, labelled bounded)',
                 assumptions=[], not_covered=['write-ahead-before-acknowledge (thread join)', 'wal_flush ordering', 'capnp transport of the catalogue']),
     'C16': dict(level='proof', units=['U16k', 'U15k', 'U02', 'U17k', 'U37k'],
                 level_text='float codec: induction base/step discharged by complete Kani harnesses over the extracted loop bodies; integer layouts and client-side row API: bounded Kani harnesses (length <= 4) over all values',
@@ -606,7 +606,7 @@ PROPS = {
     'C04': dict(level='proof', units=['U09k', 'U09v', 'U09m', 'U10', 'U19', 'U20k', 'U01', 'U29', 'U31k', 'U32k', 'U33', 'U27k', 'U28k', 'U41k'],
                 level_text='complete Kani proofs of accumulate/combine kernels; Verus proofs of dedup-merge / merge_drop / merge_keep kernels and bitmap primitives',
                 level_note='hash-map grouping is covered by bounded Kani harnesses against an assumed map contract (A-hashmap), bit-packed key construction by an induction step (U32k) and width accounting (U31k); the final pass (collect_aliased, executor) is not covered',
-                technique='contract-based deductive verification (Verus + Kani complete harnesses) of extracted functions',
+                technique='contract-based deductive verification (Verus + Kani complete harnesses) of extracted functions; hash-map grouping and the merge plan of partial results by bounded Kani harnesses (labelled bounded)',
                 assumptions=[], not_covered=['hashmap_grouping* beyond 4 rows and the hashing itself (A-hashmap)', 'try_bitpacking beyond the width accounting of U31k']),
     'C05': dict(level='proof', units=['U10', 'U11', 'U12k', 'U13k', 'U26', 'U29', 'U33', 'U35k', 'U27k', 'U36', 'U28k'],
                 level_text='Verus proof of merge (sorted, stable, limit) and of the sort kernels against assumed contracts of the std sorts (stable where stability is asked for, NULLs last / first when descending), complete Kani proofs of integer/float comparators and LIMIT/OFFSET window arithmetic; string comparators bounded',
@@ -616,7 +616,7 @@ PROPS = {
     'C03': dict(level='proof', units=['U01', 'U05k', 'U06k', 'U07k', 'U08v', 'U19', 'U25k', 'U34n', 'U36', 'U40k'],
                 level_text='complete Kani proofs of comparison kernels and constant translation; Verus proof of null bitmap primitives and filter kernels; Kani proof that the planner rewrite makes a binary operator NULL exactly where an operand is NULL; bounded Kani check of string comparisons on dictionary indices',
                 level_note='compile_expr glue other than the NULL rewrite and dictionaries larger than 3 entries are not covered; LIKE is covered only by a bounded native enumeration of its pattern translation (patterns and subjects of <= 4 characters), not by a proof',
-                technique='contract-based deductive verification (Kani complete harnesses + Verus) of extracted / path-included real code',
+                technique='contract-based deductive verification (Kani complete harnesses + Verus) of extracted / path-included real code; LIKE translation by a bounded native enumeration against the real regex crate (U34n, labelled bounded)',
                 assumptions=[], not_covered=[]),
     'C06': dict(level='proof', units=['U08k', 'U08v', 'U09k', 'U09v', 'U09m'],
                 level_text='complete (loop-free, full-domain) Kani proofs of the checked arithmetic kernels',
